@@ -89,3 +89,75 @@ def parse_empty_lgb(b):
     chunk_id, csize, lgid, noff, loff, lcount = struct.unpack_from("<IiiiIi", b, 12)
     name = b[20 + noff:].split(b"\0")[0]
     return dict(file_id=file_id, file_size=size, chunks=chunks, chunk_id=chunk_id, chunk_size=csize, layer_group_id=lgid, name=name, layer_count=lcount)
+
+
+# ---------------------------------------------------------------------------------------------
+# layer groups with layers and instance objects (seed for the hostile-input checks; the value side of
+# these records is not covered by a property, only the decoder's robustness is)
+
+LGB_OBJECTS = {
+    0x01: lambda rng: struct.pack("<IIiIIiBBBBf", 0, 0, rng.choice([0, 1, 2]), rng.getrandbits(32), rng.getrandbits(32), 0, 1, 0, 1, 0, 10.0),      # BG
+    0x04: lambda rng: struct.pack("<IfI4BBBHfffff", 0, 1.0, 0, 1, 2, 3, 4, 1, 0, 0, 0.0, 1.0, 2.0, 3.0, 4.0),                                        # Vfx
+    0x05: lambda rng: struct.pack("<iII", rng.choice([1, 2, 3, 4]), 0, 0),                                                                             # PositionMarker
+    0x07: lambda rng: struct.pack("<iI", 0, 0),                                                                                                        # Sound
+    0x0E: lambda rng: struct.pack("<II", rng.getrandbits(32), 0),                                                                                      # Gathering
+    0x10: lambda rng: struct.pack("<B3x8x", 1),                                                                                                        # Treasure
+    0x28: lambda rng: struct.pack("<iiifB3xI", rng.choice([1, 2, 3]), 0, 0, 0.5, 3, 0),                                                                # PopRange
+    0x29: lambda rng: struct.pack("<ihBBI", rng.choice([1, 2, 3, 4, 5, 6]), 5, 1, 0, 0) + struct.pack("<iHHiIIfI", 1, 130, 131, 2, 77, 78, 1.5, 0),   # ExitRange
+    0x2B: lambda rng: b"",                                                                                                                             # MapRange (no payload read)
+    90: lambda rng: b"",                                                                                                                               # Unk1
+}
+
+
+def build_lgb_layers(rng, nlayers=2, objects_per_layer=(3, 2), file_id=0x3142474C, chunk_id=0x3150474C, layer_group_id=7, name=b"bg"):
+    """-> (bytes, expected dict(layers=[(layer_id, name, [(type, instance_id)...])]))"""
+    layers = []
+    blobs = []
+    for li in range(nlayers):
+        k = objects_per_layer[li % len(objects_per_layer)]
+        types = [rng.choice(sorted(LGB_OBJECTS)) for _ in range(k)]
+        lname = b"layer_%d" % li
+        objs = []
+        for t in types:
+            iid = rng.getrandbits(32)
+            oname = b"obj_%x" % iid
+            payload = LGB_OBJECTS[t](rng)
+            # asset type, instance id, name offset (relative to the object), translation / rotation / scale
+            rec = struct.pack("<iII9f", t, iid, 48 + len(payload), *[float(i) for i in range(9)]) + payload + oname + b"\0"
+            while len(rec) % 4:
+                rec += b"\0"
+            objs.append((t, iid, rec))
+        ioffs = []
+        body = b""
+        for (_, _, rec) in objs:
+            ioffs.append(4 * k + len(body))
+            body += rec
+        after = 52 + 4 * k + len(body)
+        name_off = after
+        tailb = lname + b"\0"
+        while len(tailb) % 4:
+            tailb += b"\0"
+        lsr_off = after + len(tailb)
+        nsets = rng.choice([0, 1, 3])
+        tailb += struct.pack("<iii", rng.choice([0, 1, 2, 3]), 12, nsets) + b"".join(struct.pack("<I", rng.getrandbits(32)) for _ in range(nsets))
+        obs_off = after + len(tailb)
+        nobs = rng.choice([0, 1, 2])
+        tailb += b"".join(struct.pack("<iII", rng.choice(sorted(LGB_OBJECTS)), rng.getrandbits(32), 0) for _ in range(nobs))
+        obe_off = after + len(tailb)
+        nobe = rng.choice([0, 1, 2])
+        tailb += b"".join(struct.pack("<iIBB2x", rng.choice(sorted(LGB_OBJECTS)), rng.getrandbits(32), 1, 0) for _ in range(nobe))
+        hdr = struct.pack("<IIii4BiHHBBH4xiiii", 100 + li, name_off, 52, k, 1, 0, 0, 1, lsr_off, 0, 0, 0, 0, 0xFFFF, obs_off, nobs, obe_off, nobe)
+        assert len(hdr) == 52
+        blobs.append(hdr + b"".join(struct.pack("<i", o) for o in ioffs) + body + tailb)
+        layers.append((100 + li, lname.decode(), [(t, iid) for t, iid, _ in objs]))
+    offs = []
+    pos = 4 * nlayers
+    for b in blobs:
+        offs.append(pos)
+        pos += len(b)
+    body = b"".join(struct.pack("<i", o) for o in offs) + b"".join(blobs)
+    name_pos = 36 + len(body)
+    body += name + b"\0"
+    chunk = struct.pack("<IiiIii", chunk_id, 24 + len(body) - 8, layer_group_id, name_pos - 20, 16, nlayers)
+    data = struct.pack("<Iii", file_id, 12 + len(chunk) + len(body), 1) + chunk + body
+    return data, dict(layers=layers, name=name.decode(), layer_group_id=layer_group_id)
